@@ -96,8 +96,9 @@ SPECS = {
             "c36_bloom_1000_2": "with_params(1000,2), one arbitrary u64 key",
         },
         "assumptions": ["keys are #[derive(Hash)] wrappers of a u64 (one 8-byte write into the real SipHash)"],
-        "outside": ["hash counts above 2 (CBMC timed out at 900 s for k=3 and k=7)", "BloomFilter::new (parameter "
-                    "computation through f64::ln, not modelled by CBMC; it always yields >=64 bits and 1..=16 hashes)",
+        "outside": ["Kani part: hash counts above 2 (CBMC timed out at 900 s for k=3 and k=7) and BloomFilter::new "
+                    "(f64::ln) - both are covered by the MIR part (engine M), which abstracts the hash function instead: "
+                    "every shape with_params/new can return, every hash count, any number of insertions",
                     "HashIndex (HashMap<Tuple, Vec<Tuple>>: a single HashMap insert does not finish under CBMC); its "
                     "lookup correctness reduces to this bloom property plus Hash/Eq consistency of Tuple (C31) - an "
                     "argument, not a solver verdict"],
